@@ -49,7 +49,7 @@ class Built:
             self.stage, r.rc, r.timed_out, r.err.decode("latin1")[-1500:])
 
 
-def flex_generate(flex, specpath, outpath, args=(), cwd=None, timeout=40, extra_env=None):
+def flex_generate(flex, specpath, outpath, args=(), cwd=None, timeout=20, extra_env=None):
     cmd = [flex.bin] + list(args) + ["-o", outpath, specpath]
     r = util.run(cmd, cwd=cwd, env=flex.env(tmpdir=cwd, extra=extra_env), timeout=timeout)
     return cmd, r
